@@ -102,9 +102,14 @@ func runPlan(p *plan) []*Obs {
 			b.Close()
 		}
 	}()
-	s, err := stack.Start(stack.Opts{Engine: p.engine, Balancer: "priority", EPs: eps, ModelDiscovery: false, Mutate: func(cfg *config.Config) {
+	// every C14 deployment is configured through the real file loader; half of them leave max_message_size at 0
+	// ("use the default"), a valid spelling of the same configuration
+	s, err := stack.Start(stack.Opts{Engine: p.engine, Balancer: "priority", EPs: eps, ModelDiscovery: false, Load: true, Mutate: func(cfg *config.Config) {
 		cfg.Translators.Anthropic.Enabled = true
 		cfg.Translators.Anthropic.PassthroughEnabled = p.enabled
+		if (len(p.types)+len(p.reqs))%2 == 0 {
+			cfg.Translators.Anthropic.MaxMessageSize = 0
+		}
 	}})
 	if err != nil {
 		return fail(err.Error())
